@@ -23,7 +23,10 @@ Inductive behaviour :=
 | BNormal                      (* writes every declared output, exit 0 *)
 | BFail                        (* exit 3 before writing anything *)
 | BSkipOutput (k : nat)        (* exit 0 but does not create (and removes) declared output k *)
-| BFailAfter.                  (* writes the outputs, then exit 3 *)
+| BFailAfter                   (* writes the outputs, then exit 3 *)
+| BBreakCheck.                 (* writes every declared output, exit 0, but DESTROYS the external condition its
+                                  own output check inspects (instead of establishing it): the post-execution
+                                  check fails although the pre-execution check may have passed *)
 
 Record tdef := mkTD {
   td_label   : label;
@@ -326,7 +329,10 @@ Definition run_command (s : sources) (t : tdef) (w : world) : option world :=
           let skip := match beh with BSkipOutput k => Some k | _ => None end in
           let ws' := write_outs s t 0 (td_outs t) reads skip (w_ws w) in
           let ext' := if td_check t then
-                        (if label_in (td_label t) (w_ext w) then w_ext w else td_label t :: w_ext w)
+                        match beh with
+                        | BBreakCheck => label_remove (td_label t) (w_ext w)
+                        | _ => if label_in (td_label t) (w_ext w) then w_ext w else td_label t :: w_ext w
+                        end
                       else w_ext w in
           match beh with
           | BFailAfter => None          (* the writes happened, but they are observed only through ws *)
@@ -551,6 +557,9 @@ Inductive op :=
 | OpTaint (ls : list label)                       (* grog taint *)
 | OpPerturb (p : str) (st : pstate)               (* something happens to an output path *)
 | OpDestroyExt (l : label)                        (* the external condition of a check is destroyed *)
+| OpDropBlob (p : str)                            (* cache fault: the CAS blob holding the bytes that currently sit at the
+                                                     (file) output path p is lost *)
+| OpDropResults                                   (* cache fault: every stored target result is lost (the CAS stays) *)
 | OpBuild (cfg : config) (roots : list nat).
 
 Record sys := mkSys {
@@ -574,6 +583,18 @@ Definition step_op (y : sys) (o : op) : sys :=
       mkSys (sy_src y) (mkWorld (ws_set p st (w_ws (sy_world y))) (w_ext (sy_world y))) (sy_cache y) (sy_log y)
   | OpDestroyExt l =>
       mkSys (sy_src y) (mkWorld (w_ws (sy_world y)) (label_remove l (w_ext (sy_world y)))) (sy_cache y) (sy_log y)
+  | OpDropBlob p =>
+      let c := sy_cache y in
+      match ws_get p (w_ws (sy_world y)) with
+      | PFile content =>
+          mkSys (sy_src y) (sy_world y)
+                (mkCache (c_results c) (filter (fun e => negb (str_eqb (H content) (fst e))) (c_cas c)) (c_taint c))
+                (sy_log y)
+      | _ => y
+      end
+  | OpDropResults =>
+      let c := sy_cache y in
+      mkSys (sy_src y) (sy_world y) (mkCache [] (c_cas c) (c_taint c)) (sy_log y)
   | OpBuild cfg roots =>
       let r := build cfg (sy_src y) roots (sy_world y) (sy_cache y) in
       mkSys (sy_src y) (br_world r) (br_cache r) (sy_log y ++ [r])
